@@ -59,6 +59,18 @@ class GuardedSet:
                 out.append(v)
         return out
 
+    def indicator(self, it, g):
+        """A 0/1 integer k with k == 1 <=> g (a definitional extension: k is fresh)."""
+        if not hasattr(self, "_ind"):
+            self._ind = []
+        for gg, k in self._ind:
+            if gg is g:
+                return k
+        k, _ = sym.fresh_int("ind")
+        it.path.assume(And(k >= 0, k <= 1, Or(And(g, k == 1), And(Not(g), k == 0))))
+        self._ind.append((g, k))
+        return k
+
     def guard_of(self, it, e):
         """Membership condition of the concrete value e."""
         return Or(*[g for g, v in self.pairs if (v is e or (type(v) is type(e) and v == e))])
@@ -111,6 +123,12 @@ class GuardedSet:
                         after = env.lookup(n)
                         if after is before[n] or g is True:
                             merged[n] = after
+                            continue
+                        step = _const_step(before[n], after)
+                        if step is not None:
+                            # the body adds a constant: before + step * [g], with [g] a 0/1 integer
+                            # (linear arithmetic instead of a tower of if-then-else terms)
+                            merged[n] = before[n] + step * self.indicator(it, g)
                         else:
                             merged[n] = sym.ite(g, after, before[n])
                 except (PyExc, TypeError):
@@ -131,6 +149,20 @@ class GuardedSet:
         if isinstance(node.target, ast.Name):
             env.vars[node.target.id] = Opaque("target of a merged loop over a guarded set")
         return None
+
+
+def _const_step(before, after):
+    """after - before when both are integers and the difference is a concrete constant, else None."""
+    import z3
+    from .sym import SInt
+    if isinstance(before, bool) or isinstance(after, bool):
+        return None
+    if not isinstance(before, (int, SInt)) or not isinstance(after, (int, SInt)):
+        return None
+    d = z3.simplify(sym.int_t(after) - sym.int_t(before))
+    if z3.is_int_value(d):
+        return d.as_long()
+    return None
 
 
 def _merge_names(it, node):
